@@ -727,11 +727,24 @@ pub fn run(tier: Tier) -> ! {
         .iter()
         .map(|name| alpha.iter().position(|l| l.name == *name).unwrap())
         .collect();
-    let tri: &[usize] = if tier == Tier::Thorough { &sub } else { &sub[..9] };
+    // triples: over the sub-alphabet (quick) / over the whole alphabet (thorough); quadruples over the sub-alphabet (thorough)
+    let all_letters: Vec<usize> = (0..n).collect();
+    let tri: &[usize] = if tier == Tier::Thorough { &all_letters } else { &sub };
     for &a in tri {
         for &b in tri {
             for &c in tri {
                 pipelines.push(vec![a, b, c]);
+            }
+        }
+    }
+    if tier == Tier::Thorough {
+        for &a in &sub {
+            for &b in &sub {
+                for &c in &sub {
+                    for &d in &sub {
+                        pipelines.push(vec![a, b, c, d]);
+                    }
+                }
             }
         }
     }
@@ -859,12 +872,12 @@ pub fn run(tier: Tier) -> ! {
         "exhaustive": true,
         "alphabet": alpha.iter().map(|l| l.name).collect::<Vec<_>>(),
         "letters": n,
-        "bound": {"singles": n, "ordered_pairs": n * n, "triples_over": tri.len(), "repeat_64": n, "pair_around_62_echoes": if tier == Tier::Thorough { sub.len() * sub.len() } else { 0 }},
+        "bound": {"singles": n, "ordered_pairs": n * n, "triples_over": tri.len(), "quadruples_over": if tier == Tier::Thorough { sub.len() } else { 0 }, "repeat_64": n, "pair_around_62_echoes": if tier == Tier::Thorough { sub.len() * sub.len() } else { 0 }},
         "dispatch_paths": per_path,
         "non_deciding_rows": ["websocket-outbound-capacity-1: same pipelines on a 4-worker runtime with a 1-slot outbound queue and a trickling peer; the schedules of the runtime workers are whatever occurs (not enumerated), so this row only adds detection (any reordering it sees is a real violation: the reader queues responses sequentially)"],
         "requests_at_the_offreader_cap": {"scenarios": sat.scenarios, "calls_answered_by_the_reader": sat.rejected_calls_seen, "notifies_at_the_cap": sat.notifies_at_cap, "parked_handler_runs": sat.handler_runs, "rule": "caps 1, 2, 3 (thorough 16) x four blocking route kinds x {call, notify, call+notify+call} at the cap x short / 285-byte escaped path: exactly one response per call carrying its id and its query bytes, none per notify, one per released request, handler invocations = dispatched requests"},
         "nonvacuity": {"responses_by_error_code": total.by_class, "pipelines_with_2plus_responses": total.multi_inflight, "responses": total.responses, "requests": total.requests},
-        "rule": "every pipeline (all letters, all ordered pairs, triples over a sub-alphabet, each letter x64, pairs around 62 echoes) is written in one burst on a fresh connection of each dispatch path (blocking TCP, async TCP, async over memstream, WebSocket with inline and off-reader routes); all frames received until the server closes are matched by id against the model; handler and middleware invocation counters are compared per pipeline",
+        "rule": "every pipeline (all letters, all ordered pairs, triples over a 12-letter sub-alphabet (thorough: over all letters, plus quadruples over the sub-alphabet), each letter x64, pairs around 62 echoes) is written in one burst on a fresh connection of each dispatch path (blocking TCP, async TCP, async over memstream, WebSocket with inline and off-reader routes); all frames received until the server closes are matched by id against the model; handler and middleware invocation counters are compared per pipeline",
     });
     ctx.finish(
         "model_checking",
